@@ -191,6 +191,9 @@ def make_pk(rng, sid, user, kname, alg, attack):
     name, sb = r.string(), r.string()
     if attack == "trunc_sig":
         k = rng.choice([1, 1, 2, rng.randint(1, max(1, len(sb) - 1)), len(sb)])
+        # a cut tail of zero bytes is restored by Message's zero filling of short reads: not an attack
+        while k < len(sb) and not any(sb[len(sb) - k:]):
+            k += 1
         return pk_body(user, svc, alg, blob, True, sstr(name) + sstr(sb[:len(sb) - k]))
     if attack == "bitflip_sig":
         for _ in range(50):
@@ -365,21 +368,25 @@ def judge_episode(ctx, ep, sid):
         if method == b"publickey":
             sigok = False
             info["sig_attached"] = None
-            try:
-                flag = rd.boolean()
-                alg = rd.string()
-                blob = rd.string()
-                info["sig_attached"] = flag
-                if flag:
-                    rd.lenient = True  # framing damage in the signature field is not an invalid signature
-                    sigfield = rd.string()
+            for mode in (False, "clamp", "pad"):  # strict, then the two lenient framings (see authkit.Rd)
+                try:
+                    r2 = Rd(rd.d, rd.p, lenient=mode)
+                    flag = r2.boolean()
+                    alg = r2.string()
+                    blob = r2.string()
+                    info["sig_attached"] = flag
+                    if not flag:
+                        break
+                    sigfield = r2.string()
                     data = session_blob(sid, user, rq["service"], alg, blob)
-                    ctx.count("independent_sig_verifications")
-                    sigok = verify_sig(blob, sigfield, data)
-                    if sigok:
+                    if mode is False:
+                        ctx.count("independent_sig_verifications")
+                    if verify_sig(blob, sigfield, data):
+                        sigok = True
                         ctx.count("independent_sig_valid")
-            except Short:
-                sigok = False
+                        break
+                except Short:
+                    continue
             info["sig_valid"] = sigok
             return ok_own and sigok, info
         if ok_own:
@@ -438,7 +445,7 @@ def analyse(ctx, sess, desc, labels, auth_samples):
             ctx.count("grants_justified", len(grants))
             continue
         label = labels.get(m["seq"])
-        wit = dict(session=desc, request=dict(type=m["type"], seq=m["seq"], payload=m["payload"][:300]), oracle=info,
+        wit = dict(session=desc, request=dict(type=m["type"], seq=m["seq"], payload_hex=m["payload"].hex()[:1990]), oracle=info,
                    step=label, callbacks=[dict(name=c["name"], args=c["args"], result=res_name(c["result"])) for c in ep["cbs"]],
                    replies=[o["type"] for o in ep["out"]])
         if info.get("kind") != "request" and not info["kind"].startswith("continuation"):
